@@ -238,7 +238,7 @@ def _init_loop_spec():
             for (s3, r, evs) in simulate_callback(engine, st, fr, on_out[0].extra["cb"], outv, later):
                 canc = [e for e in evs if e.kind == "call" and e.meth == "cancel"]
                 f = z3.And(z3.BoolVal(len(canc) == 1), canc[0].recv == Val.id(x)) if len(canc) == 1 else z3.BoolVal(False)
-                st.oblig.append(Obligation("loop __init__#1 body: cancelling the output requests cancel() of exactly this input", "LI", f,
+                engine.all_obligations.append(Obligation("loop __init__#1 body: cancelling the output requests cancel() of exactly this input", "LI", f,
                                            list(s3.pc), list(s3.decisions), None, ["C14", "C06"]))
         else:
             # the output was already done when chain_cancel ran: the forwarding callback ran at once
@@ -255,7 +255,7 @@ def _init_loop_spec():
             for (s3, r, evs) in simulate_callback(engine, st, fr, on_x[0].extra["cb"], ctx["x"], lambda s2: _havoc_locals(engine, s2, fr, ["f"], ())):
                 hd = [e for e in evs if e.kind == "repo-call" and e.meth.endswith("handle_done")]
                 f = z3.And(z3.BoolVal(len(hd) == 1), hd[0].args[0] == selfv.t, hd[0].args[1] == x) if len(hd) == 1 else z3.BoolVal(False)
-                st.oblig.append(Obligation("loop __init__#1 body: the input's done-callback is handle_done(this operation, this input)", "LI", f,
+                engine.all_obligations.append(Obligation("loop __init__#1 body: the input's done-callback is handle_done(this operation, this input)", "LI", f,
                                            list(s3.pc), list(s3.decisions), None, ["C14", "C03"]))
         return out_cl
     return LoopSpec(body_post=body_post)
